@@ -664,6 +664,16 @@ def rule_sigops(ctx, repo, eng):
     if lastv is None:
         return
     init = [norm(n.value) for n in walk_no_nested(fi.node) if isinstance(n, ast.Assign) and norm(n.targets[0]) == lastv and n not in lp.body]
+    if not init:
+        r.violated('last-opcode-initialised', fi.site, 'the previous-opcode variable `%s` has no value before the first operation: a script that starts with OP_CHECKMULTISIG raises UnboundLocalError in accurate mode '
+                   'instead of counting 20' % lastv, sure=True)
+    # the count starts at zero
+    accs_ = sorted({norm(n.target) for n in ast.walk(lp) if isinstance(n, ast.AugAssign)})
+    for a_ in accs_:
+        ini_ = [n for n in walk_no_nested(fi.node) if isinstance(n, ast.Assign) and norm(n.targets[0]) == a_ and n not in list(ast.walk(lp)) and isinstance(n.value, ast.Constant)]
+        if len(ini_) == 1:
+            r.check(ini_[0].value.value == 0 and not isinstance(ini_[0].value.value, bool), 'count-starts-at-zero', common.site_of(fi, ini_[0]), '%s = 0' % a_,
+                    'the signature-operation count starts at %r: every script (the empty one included) counts too many' % (ini_[0].value.value,), sure=True)
     small, isi = small_ints(repo)
     dec = repo.get_function(OP + '.decode_op_n')
     tdec = Tracer(repo, dec.module, cls=dec.cls)
